@@ -59,6 +59,7 @@ type RefServer struct {
 	Verbs     []string    // the verb (or "greeting"/"eod") seen at each position
 	closed    bool        // server closed the connection
 	stalled   bool        // server will never speak again
+	deaf      bool        // ... and does not read either: what the client writes piles up in the transport
 	tlsStarted bool
 	tlsServing bool       // replies now travel inside TLS
 	tlsDone   chan struct{}
@@ -141,6 +142,13 @@ func (s *RefServer) respond(verb string) int {
 	case "reply":
 		s.sendReply(a.Code, a.Text)
 		return a.Code
+	case "deaf":
+		// the well-behaved reply, then the server neither reads nor writes any more
+		code, text := s.defaultReply(verb)
+		s.sendReply(code, text)
+		s.stalled = true
+		s.deaf = true
+		return code
 	default:
 		code, text := s.defaultReply(verb)
 		s.sendReply(code, text)
@@ -269,6 +277,8 @@ type ScriptConn struct {
 	Closes   int
 	Blocked  []string // "armed" / "unarmed" for every read that found the server silent
 	name     string
+	wArmed   bool         // a write deadline is armed (SetDeadline / SetWriteDeadline)
+	unread   int          // bytes written since the server stopped reading
 	raw      *pipeEnd     // non-nil once the server switched to TLS: bytes are TLS records from here on
 	Clear    bytes.Buffer // everything the client wrote before the switch (cleartext on the wire)
 	deadline time.Time
@@ -352,6 +362,27 @@ func (c *ScriptConn) Write(p []byte) (int, error) {
 	if raw == nil {
 		c.Clear.Write(p)
 	}
+	if raw == nil {
+		c.srv.mu.Lock()
+		deaf := c.srv.deaf
+		c.srv.mu.Unlock()
+		if deaf {
+			// nobody reads: the transport takes transportBuffer bytes, then the write waits
+			c.unread += len(p)
+			if c.unread > transportBuffer {
+				armed := c.wArmed
+				c.mu.Unlock()
+				c.srv.mu.Lock()
+				defer c.srv.mu.Unlock()
+				if armed {
+					c.srv.Events = append(c.srv.Events, Event{Kind: "stall-armed"})
+					return 0, timeoutErr{}
+				}
+				c.srv.Events = append(c.srv.Events, Event{Kind: "stall-unarmed"})
+				return 0, errBlocksForever
+			}
+		}
+	}
 	c.mu.Unlock()
 	if raw != nil {
 		return raw.Write(p)
@@ -411,6 +442,7 @@ func (c *ScriptConn) SetDeadline(t time.Time) error {
 		return net.ErrClosed
 	}
 	c.armed = !t.IsZero()
+	c.wArmed = !t.IsZero()
 	c.deadline = t
 	if c.raw != nil {
 		_ = c.raw.SetDeadline(t)
@@ -426,12 +458,21 @@ func (c *ScriptConn) SetReadDeadline(t time.Time) error {
 	c.mu.Lock()
 	defer c.mu.Unlock()
 	c.armed = !t.IsZero()
+	c.deadline = t
 	if c.raw != nil {
 		_ = c.raw.SetDeadline(t)
 	}
 	return nil
 }
-func (c *ScriptConn) SetWriteDeadline(t time.Time) error { return nil }
+func (c *ScriptConn) SetWriteDeadline(t time.Time) error {
+	c.mu.Lock()
+	defer c.mu.Unlock()
+	c.wArmed = !t.IsZero()
+	return nil
+}
+
+// transportBuffer: how much a connection takes while the peer does not read (socket buffers)
+const transportBuffer = 64 << 10
 
 // serveTLS runs on its own goroutine once the client has been told to start TLS: it takes the
 // handshake action from the script and then keeps feeding the decrypted bytes to the same state machine.
